@@ -832,9 +832,21 @@ class Interp(Engine):
         raise Unsupported("global statement")
 
     def ex_Import(self, s, fr):
-        raise Unsupported("import inside a carrier")
+        """`import a.b [as c]` inside a function: binds the real module object (calls into it still need a model)"""
+        import importlib
 
-    ex_ImportFrom = ex_Import
+        for al in s.names:
+            try:
+                if al.asname:
+                    fr.vars[al.asname] = importlib.import_module(al.name)
+                else:
+                    importlib.import_module(al.name)
+                    fr.vars[al.name.split(".")[0]] = importlib.import_module(al.name.split(".")[0])
+            except ImportError as e:
+                raise ProgExc(type(e), str(e))
+
+    def ex_ImportFrom(self, s, fr):
+        raise Unsupported("from-import inside a carrier")
 
     def ex_Delete(self, s, fr):
         for t in s.targets:
